@@ -128,8 +128,8 @@ theorem stopped_whatever_status (cfg : Cfg) (p : Proc) (now es : Int) (busy : Bo
     repeat' split
     all_goals simp_all
   cases busy <;>
-    simp [finish, finishCore, changeState, assertIn, emit, setP, guard, finish_g1, finish_a2, finish_a7, finish_a8, finish_a9,
-      finish_a20, finish_c0, finish_c1_0, change_state_g0, change_state_g1, change_state_a0, change_state_a2, announces_all,
+    simp [finish, finishCore, changeState, assertIn, emit, setP, guard, finish_g1, finish_g2, finish_a7, finish_a8, finish_a9, finish_a2, finish_a11, finish_a12, finish_a13,
+      finish_a24, finish_c0, finish_c1_0, change_state_g0, change_state_g1, change_state_a0, change_state_a2, announces_all,
       h1, h3]
 
 /-- **A stopped process is never restarted on its own**: no pass forks a child for a STOPPED process
